@@ -1,7 +1,8 @@
 """C11 — source text is read with the documented precedence, literals and comments."""
 
-THEOREM_MODULES = ["Hcl.Theorems.C11", "Hcl.Theorems.C11Fuel", "Hcl.Tie.Lexer", "Hcl.Tie.Grammar", "Hcl.Tie.Preamble"]
-THEOREMS = {"Hcl.Theorems.C11Fuel": ["C11_parser_fuel_monotone", "C11_parser_fuel_enough", "C11_parser_fuel_independent"],
+THEOREM_MODULES = ["Hcl.Theorems.C11", "Hcl.Theorems.C11Fuel", "Hcl.Proofs.ParseStmts", "Hcl.Tie.Lexer", "Hcl.Tie.Grammar", "Hcl.Tie.Preamble"]
+THEOREMS = {"Hcl.Proofs.ParseStmts": ["Parser.parseStmts_fuel_independent", "Parser.parseProgram_fuel_independent", "Parser.parseProgram_lex_error", "Parser.parseE_eq_none_iff", "Parser.parseStmts_ne_nil"],
+            "Hcl.Theorems.C11Fuel": ["C11_parser_fuel_monotone", "C11_parser_fuel_enough", "C11_parser_fuel_independent"],
             "Hcl.Theorems.C11": ["C11_block_comment", "C11_hash_comment", "C11_slash_comment", "C11_blank_space", "C11_pairs_and_triples_grouped", "C11_unary_slice_in", "Grouping.level_documented", "Grouping.slice_tightest", "Grouping.unary_slice_needs_parentheses", "Grouping.in_level", "Lexer.skipBlock_skips", "C11_model_tiers_documented", "C11_grammar_tiers_documented", "C11_grammar_ops_documented",
                                  "C11_preamble_values", "C11_binary", "C11_hex", "C11_decimal", "C11_digit"]}
 
@@ -13,6 +14,7 @@ RULE = ("S-PARSE: every ordered pair of binary operators in both groupings, ever
         "S-LITERAL: decimal, mixed-case hexadecimal and binary literals of known value up to and beyond 128 bits between "
         "comments; the real lexer must produce exactly the value, width (digit count for binary) and span known by construction, "
         "or InvalidConstant for literals that do not fit (oracle); the Lean lexer model must agree (correspondence). "
+        "S-PROG (statement grammar): for every program text of the program streams the Lean model of the statement grammar (declarations, chained and comma-separated assignments, register banks, separators; success path) parses the text itself and must produce the AST the real parser produced. "
         "S-LEX: token soup with Unicode blanks/letters, unterminated comments, malformed literals: real lexer vs. model. "
         "non-trivial = cases with at least two operators / one literal; distinct = distinct texts.")
 
@@ -48,8 +50,17 @@ def judge_soup(req, impl, model, spec):
             "cats": ["lex-error" if "ERR:" in impl else "lex-ok"]}
 
 
+def judge_stmts(req, impl, model, spec):
+    # the runner turns a disagreement of the statement-grammar model with the real parser into a correspondence failure;
+    # nothing else is asked of these cases here (the program itself is judged under C01-C09, the text under C13)
+    return {"corr": True, "oracle": not impl.startswith("PANIC"), "what": "panic" if impl.startswith("PANIC") else "",
+            "key": req if len(req) > 40 else None, "cats": ["accepted" if impl.startswith("ok") else "rejected-or-unparsed"]}
+
+
 def streams(tier, seed):
     q = tier == "quick"
     return [{"name": "parse", "stream": "parse", "count": 3000 if q else 200000, "judge": judge},
             {"name": "literal", "stream": "literal", "count": 4000 if q else 300000, "judge": judge},
-            {"name": "lex", "stream": "lex", "count": 4000 if q else 300000, "judge": judge_soup}]
+            {"name": "lex", "stream": "lex", "count": 4000 if q else 300000, "judge": judge_soup},
+            {"name": "stmts", "stream": "prog", "count": 300 if q else 20000, "extra": ("banks",), "judge": judge_stmts},
+            {"name": "stmts-text", "stream": "anytext", "count": 1500 if q else 100000, "judge": judge_stmts}]
